@@ -48,6 +48,16 @@ CHECKS = {
     note=REAL + "design_count<=3, output_dim 2, histories of <=3 batches of <=3 rows; discrete skeleton enumerated, values symbolic",
     technique="symbolic execution of the real numpy code on z3 reals + SMT per call skeleton",
     design_ref="DESIGN.md §3 C16"),
+ "C20": dict(
+    text="Bounded symbolic model checking of the real problem classes: nearest-design lookup on symbolic datasets and "
+         "queries (every order type of the distances is a path; returned rows proved to be a nearest design's output), "
+         "noise law by linearity in a symbolic standard-normal draw with AᵀA = configured covariance, decoupled evaluation "
+         "by term identity against a recording stub, input immutability on every path (incl. the x_1 == 0 branch of "
+         "BraninCurrin), normalise/unnormalise inverses; bundled-dataset scaling checked concretely.",
+    note=REAL + "N<=4 designs, dim<=3, batch<=2; stubs: exact euclidean_distances, Cholesky contract, np.random.normal as "
+         "fresh symbolic matrix; Gaussianity of the draw and sklearn's rounding near ties are outside",
+    technique="symbolic execution of the real numpy code on z3 reals + SMT (QF_NRA) per path",
+    design_ref="DESIGN.md §3 C20"),
 }
 
 _WIP = "check not built yet (work in progress; will be claimed once its harness exists)"
